@@ -105,7 +105,7 @@ REGISTRY: T.List[T.Tuple[str, str, str, str]] = [
     ('depfile.py', 'deps: T.Set[str] = set()', 'D', 'p11'),
     ('depfile.py', 'visited = set()', 'M', 'membership'),
     ('dependencies/detect.py', '_packages_accept_language', 'M', 'membership'),
-    ('dependencies/detect.py', 'tuple(frozenset(listify(value)))', 'D', 'p15 (dependency() with a 3-element list keyword): cache key only, checked through fresh-vs-reconfigure'),
+    ('dependencies/detect.py', 'frozenset(listify(value))', 'D', 'p15 (dependency() with a 3-element list keyword): pickled cache key, sorted since 0cba8d8; checked through fresh-vs-reconfigure'),
     # ---- build.py
     ('build.py', 'self.targetnames', 'M', 'membership'),
     ('build.py', 'environment.is_cross_build(), set(), set())', 'M', 'searched_programs: membership'),
@@ -122,7 +122,6 @@ REGISTRY: T.List[T.Tuple[str, str, str, str]] = [
     ('build.py', 'all_langs = set(self.compilers).union', 'D', 'p16_langs (c + cpp + fortran in one target: stdlib link args of the non-link languages)'),
     ('build.py', 'system_dirs = set()', 'M', 'membership'),
     ('build.py', 'dirs: T.Set[str] = set()', 'M', 'get_rpath_dirs_from_link_args: membership'),
-    ('build.py', 'self.depends: T.Set[BuildTarget | GeneratedTypes] = set()', 'D', 'p16_langs (generator.process on the outputs of 3 custom targets)'),
     ('build.py', 'bdeps: T.Set', 'U', 'get_transitive_build_target_deps: consumed for Windows PATH only'),
     # ---- environment / setup / configure
     ('environment.py', 'deprecated_properties', 'M', 'membership'),
